@@ -23,6 +23,12 @@ abbrev V := Int
 /-- A Python `dict` with (interned) string keys in insertion order. -/
 abbrev KW := List (Name × V)
 
+/-- The two value codes that stand for Python lists (`[]` and `[2, 3]`); every other code is a
+non-iterable scalar. Only consulted where the code iterates a value smuggled in under the name of
+the `*args` parameter. -/
+def listOfCode (v : V) : Option (List V) :=
+  if v = -4 then some [] else if v = -5 then some [2, 3] else none
+
 /-! ### Python dict primitives -/
 
 def kget : KW → Name → Option V
@@ -354,7 +360,10 @@ def parseOverrides (fix29 : Bool) (F : Functor) (c : Call) (override? ignore? : 
         else match st.slot with
           | .none => .ok ⟨l, kw2⟩
           | .list xs => .ok ⟨l ++ xs, kw2⟩
-          | .scalar v => if v ≤ 0 then .ok ⟨l, kw2⟩ else .error .typeError   -- falsy: skipped; else extend(<int>)
+          | .scalar v =>
+            match listOfCode v with
+            | some xs => .ok ⟨l ++ xs, kw2⟩                       -- a list value: extend(list)
+            | none => if v ≤ 0 then .ok ⟨l, kw2⟩ else .error .typeError   -- falsy: skipped; else extend(<int>)
       else .ok ⟨l, kw2⟩
 
 /-- `Functor.__call__` for a functor made from a function: `_call` forwards to the function,
@@ -659,6 +668,20 @@ def resolve (attrs : Nat → KW) (st : OvStore) (o t : Nat) (k : Name) : Option 
     | some v => some v
     | none => kget (attrs o) k
   | none => kget (attrs o) k
+
+/-- `with self._apply_call_time_overrides_to_members(**kwargs): self._call()` — the context manager
+restores the store in a `finally` branch, i.e. also when `_call` raises. Returns the store after
+the invocation and the outcome of the body. -/
+def withOverrides {ε α : Type} (st : OvStore) (o t : Nat) (kw : KW) (body : OvStore → Except ε α) :
+    OvStore × Except ε α :=
+  ((st.enter o t kw).exit, body (st.enter o t kw))
+
+/-- The seeded regression: no `finally` — the restore is skipped when the body raises. -/
+def withOverridesNoFinally {ε α : Type} (st : OvStore) (o t : Nat) (kw : KW) (body : OvStore → Except ε α) :
+    OvStore × Except ε α :=
+  match body (st.enter o t kw) with
+  | .ok a => ((st.enter o t kw).exit, .ok a)
+  | .error e => (st.enter o t kw, .error e)
 
 /-- The seeded regression: ONE `threading.local` shared by all functor objects — the innermost
 active invocation of the thread wins, whatever object it belongs to. -/
